@@ -89,6 +89,27 @@ fn gt_parse_2() {
 fn gt_parse_3() {
     parse_case::<3>(kani::any())
 }
+#[kani::proof]
+#[kani::unwind(14)]
+#[kani::stub(alloc::fmt::format, fmt_stub)]
+#[kani::stub(std::hash::RandomState::new, random_state_stub)]
+fn gt_parse_4() {
+    parse_case::<4>(kani::any())
+}
+#[kani::proof]
+#[kani::unwind(14)]
+#[kani::stub(alloc::fmt::format, fmt_stub)]
+#[kani::stub(std::hash::RandomState::new, random_state_stub)]
+fn gt_parse_5() {
+    parse_case::<5>(kani::any())
+}
+#[kani::proof]
+#[kani::unwind(14)]
+#[kani::stub(alloc::fmt::format, fmt_stub)]
+#[kani::stub(std::hash::RandomState::new, random_state_stub)]
+fn gt_parse_6() {
+    parse_case::<6>(kani::any())
+}
 /// 8-vs-9 digit boundary: N-3 leading '9' digits fixed, the last three bytes arbitrary
 fn parse_tail3<const N: usize>() {
     let mut v = [b'9'; N];
